@@ -6,8 +6,10 @@ import (
 	"encoding/json"
 	"fmt"
 	"hash/fnv"
+	"io"
 	"os"
 	"sort"
+	"strings"
 	"testing"
 	"time"
 
@@ -66,42 +68,43 @@ func (k *Known) Matches(v simrt.Violation) bool {
 
 // ReplayFile is the on-disk form of a failing (or sample) execution.
 type ReplayFile struct {
-	Property string          `json:"property"`
-	Engine   string          `json:"engine"`
-	Case     json.RawMessage `json:"case"`
+	Property string           `json:"property"`
+	Engine   string           `json:"engine"`
+	Case     json.RawMessage  `json:"case"`
 	Expect   *simrt.Violation `json:"expect,omitempty"`
-	Trace    []string        `json:"trace,omitempty"`
-	Tree     string          `json:"tree,omitempty"`
-	Seed     uint64          `json:"rapid_seed,omitempty"`
+	Trace    []string         `json:"trace,omitempty"`
+	Tree     string           `json:"tree,omitempty"`
+	Seed     uint64           `json:"rapid_seed,omitempty"`
 }
 
 // WorkerOut is what one worker process reports.
 type WorkerOut struct {
-	Property   string           `json:"property"`
-	Engine     string           `json:"engine"`
-	Worker     int              `json:"worker"`
-	SeedFirst  uint64           `json:"seed_first"`
-	SeedLast   uint64           `json:"seed_last"`
-	Runs       int64            `json:"runs"`
-	Completed  int64            `json:"completed"`
-	Steps      int64            `json:"steps"`
-	Switches   int64            `json:"switches"`
-	Preempts   int64            `json:"preemptions"`
-	SimTimeNs  int64            `json:"sim_time_ns"`
-	WallS      float64          `json:"wall_s"`
-	Faults     map[string]int64 `json:"faults"`
-	Configured map[string]int64 `json:"configured"`
-	Probes     map[string]int64 `json:"probes"`
-	Scheds     []uint64         `json:"scheds"`     // distinct schedule hashes
-	States     []uint64         `json:"states"`     // distinct abstract states
-	NonTrivial []uint64         `json:"nontrivial"` // distinct (case, schedule) hashes of non-trivial runs
-	Samples    []json.RawMessage `json:"samples"`
-	KnownHits  map[string]int64 `json:"known_hits"` // what -> count
-	OtherProps map[string]int64 `json:"other_props"` // violations of properties other than the one asked for (not judged here)
-	Failure    *ReplayFile      `json:"failure,omitempty"`
-	Harness    []string         `json:"harness_errors,omitempty"`
-	TraceHashes map[string]uint64 `json:"trace_hashes,omitempty"` // determinism spot check: case hash -> result hash
-	Unconfirmed int64 `json:"unconfirmed,omitempty"` // violating runs that did not violate when re-executed from a clean process state
+	Property     string            `json:"property"`
+	Engine       string            `json:"engine"`
+	Worker       int               `json:"worker"`
+	SeedFirst    uint64            `json:"seed_first"`
+	SeedLast     uint64            `json:"seed_last"`
+	Runs         int64             `json:"runs"`
+	Completed    int64             `json:"completed"`
+	Steps        int64             `json:"steps"`
+	Switches     int64             `json:"switches"`
+	Preempts     int64             `json:"preemptions"`
+	SimTimeNs    int64             `json:"sim_time_ns"`
+	WallS        float64           `json:"wall_s"`
+	Faults       map[string]int64  `json:"faults"`
+	Configured   map[string]int64  `json:"configured"`
+	Probes       map[string]int64  `json:"probes"`
+	Scheds       []uint64          `json:"scheds"`     // distinct schedule hashes
+	States       []uint64          `json:"states"`     // distinct abstract states
+	NonTrivial   []uint64          `json:"nontrivial"` // distinct (case, schedule) hashes of non-trivial runs
+	Samples      []json.RawMessage `json:"samples"`
+	KnownHits    map[string]int64  `json:"known_hits"`  // what -> count
+	OtherProps   map[string]int64  `json:"other_props"` // violations of properties other than the one asked for (not judged here)
+	Failure      *ReplayFile       `json:"failure,omitempty"`
+	Harness      []string          `json:"harness_errors,omitempty"`
+	TraceHashes  map[string]uint64 `json:"trace_hashes,omitempty"`  // determinism spot check: case hash -> result hash
+	TraceDigests map[string]string `json:"trace_digests,omitempty"` // with VERIF_DET_DIGEST=1: what the hashes were computed from
+	Unconfirmed  int64             `json:"unconfirmed,omitempty"`   // violating runs that did not violate when re-executed from a clean process state
 }
 
 type acc struct {
@@ -130,6 +133,14 @@ func hashBytes(b []byte) uint64 {
 // determinism checks.
 func ResultHash(r *simrt.Result) uint64 {
 	h := fnv.New64a()
+	io.WriteString(h, ResultDigest(r))
+	return h.Sum64()
+}
+
+// ResultDigest is the text ResultHash hashes (kept by the determinism
+// self-test so that a divergence can be diagnosed).
+func ResultDigest(r *simrt.Result) string {
+	h := &strings.Builder{}
 	fmt.Fprintf(h, "%d|%d|%d|%d|", r.Stats.Steps, r.Stats.Switches, r.Stats.SchedHash, int64(r.Stats.SimTime))
 	for _, v := range r.Violations {
 		fmt.Fprintf(h, "%s/%s/%d/%s|", v.Property, v.Class, v.Step, v.Msg)
@@ -146,7 +157,7 @@ func ResultHash(r *simrt.Result) uint64 {
 		fmt.Fprintf(h, "%x.", s)
 	}
 	fmt.Fprintf(h, "H:%s", r.Harness)
-	return h.Sum64()
+	return h.String()
 }
 
 func (a *acc) add(caseJSON []byte, r *simrt.Result) {
